@@ -9,6 +9,7 @@ mod c03;
 mod c04;
 mod c07;
 mod c08;
+mod c09;
 mod c10;
 mod c11;
 mod c12;
@@ -29,6 +30,7 @@ fn main() {
         "c04" => c04::run,
         "c07" => c07::run,
         "c08" => c08::run,
+        "c09" => c09::run,
         "c10" => c10::run,
         "c11" => c11::run,
         "c12" => c12::run,
